@@ -265,6 +265,10 @@ def _methods(u, t, finite, tier):
             out.append(("kaplan_wald", None, None, {"g": g}))
     for e in etas:
         out.append(("wald_sprt", None, None, {"eta": str(e)}))
+    # the SPRT documents its alternative as "eta in (0,u)": values at and below the null mean are in the documented range
+    out.append(("wald_sprt", None, None, {"eta": str(t / 2)}))
+    if tier == "thorough":
+        out.append(("wald_sprt", None, None, {"eta": str(t)}))
     if tier == "thorough":
         out.append(("wald_sprt", None, None, {}))
     return out
